@@ -302,7 +302,7 @@ Proof. vm_compute. repeat split; reflexivity. Qed.
 Notation step1 := (VM.step1 my_grow my_get my_set my_len my_getattr my_setattr).
 Notation run_window := (C02_rules.run_window my_grow my_get my_set my_len my_getattr my_setattr).
 Notation exec := (VM.exec my_grow my_get my_set my_len my_getattr my_setattr).
-Definition rules := c02_rules my_grow my_get my_set my_len my_getattr my_setattr my_get_key my_set_key.
+Definition rules := c02_rules my_grow my_get my_set my_len my_getattr my_setattr.
 
 Definition dr : rule := mkRule [] [] "" OZero OZero OZero 0.
 Definition R (k : nat) : rule := nth k peephole_rules dr.
